@@ -42,6 +42,7 @@ import (
 
 const c19wArm = "c19w-arm"       // marker (tick op): from here on the namespace configuration is in force
 const c19wAccLogin = "c19w-acc-login" // marker (raw op): {acc user=self scheme=basic secret=newlogin:password}; X[0] is the new login
+const c19wAccNew = "c19w-acc-new" // marker (raw op): {acc user=new tags=X}: a new account created with tags
 const c19wAccTags = "c19w-acc"   // marker (raw op): {acc user=self tags=X}
 const c19wNewGrp = "c19w-newgrp" // marker (raw op): {sub new set.tags=X}
 const c19wCred = "c19w-cred"     // marker (raw op): {set me cred={meth=email resp=...}} confirming the pending e-mail
@@ -386,6 +387,22 @@ func c19wGen(rt *rapid.T) c19wProg {
 		s := gInt(rt, 0, len(p.Sess)-1, "s")
 		u := p.Sess[s]
 		switch x := gInt(rt, 0, 99, "opk"); {
+		case x >= 28 && x < 60 && gPct(rt, 6):
+			// a new account is created with a tag list which needs cleaning (and, past the limit, hides a reserved tag)
+			tags := c19wGenTags(rt, nil, foreign)
+			switch gInt(rt, 0, 3, "dirty") {
+			case 0:
+				tags = append(tags, "dup", "DUP", "x", "#hash", " padded ")
+			case 1:
+				for k := 0; k < 16; k++ {
+					tags = append(tags, fmt.Sprintf("filler%02d", k))
+				}
+				tags = append(tags, gPick(rt, foreign, "hidden"))
+			case 2:
+				tags = append([]string{"plain", "plain"}, tags...)
+			}
+			raw := wJSON(map[string]any{"acc": map[string]any{"id": "$id", "user": "new", "scheme": "basic", "secret": fmt.Sprintf("$b64:newacc%d:secret%d", i, i), "tags": tags}})
+			p.Ops = append(p.Ops, wOp{K: "raw", S: s, A: raw, B: c19wAccNew})
 		case p.NS.Login && u >= 0 && u < len(c19wLogins) && x < 40 && gPct(rt, 6):
 			// the account changes its login (or only the password): the authenticator replaces the tag it maintains
 			nl := gPick(rt, []string{fmt.Sprintf("fresh%da", u), fmt.Sprintf("fresh%db", u), c19wLogins[u], c19wLogins[(u+1)%len(c19wLogins)], ""}, "newlogin")
@@ -600,6 +617,7 @@ type c19wObs struct {
 	classes              map[string]bool
 	preSubs              map[int]map[string]bool // session slot -> routable names of the topics it was attached to before the step
 	logins               map[int]string          // user -> login on record with the basic authenticator
+	newAccounts          []types.Uid             // accounts created by generated {acc user=new} requests
 	staleMe              map[int]bool            // user -> the loaded 'me' topic has not heard of a login change (listed finding)
 }
 
@@ -956,6 +974,42 @@ func (o *c19wObs) after(w *wWorld, st *wStep) *kit.Viol {
 				return v
 			}
 		}
+	case st.Op.K == "raw" && st.Op.B == c19wAccNew:
+		// whatever the answer: an account which exists afterwards and did not before has stored tags which
+		// are normalised, within the limit, and carry nothing in a reserved namespace but the login the
+		// authenticator itself adds
+		known := map[types.Uid]bool{}
+		for _, u := range w.users {
+			known[u.uid] = true
+		}
+		for _, u := range o.newAccounts {
+			known[u] = true
+		}
+		for _, ur := range snap.Users {
+			if known[ur.ID] {
+				continue
+			}
+			o.newAccounts = append(o.newAccounts, ur.ID)
+			o.class("account-created-with-tags")
+			if len(ur.Tags) > c19wMaxTags+1 {
+				return o.rep(kit.V("stored-tags-over-count:new-account", "%s created an account with %d tags %q, the limit is %d", st.Req, len(ur.Tags), ur.Tags, c19wMaxTags))
+			}
+			seen := map[string]bool{}
+			for _, tg := range ur.Tags {
+				if e := c19wTagErr(tg); e != "" {
+					return o.rep(kit.V("stored-tag-not-normalised:new-account", "%s created an account with tag %q which %s (all: %q)", st.Req, tg, e, ur.Tags))
+				}
+				if seen[tg] {
+					return o.rep(kit.V("stored-tag-not-normalised:new-account", "%s created an account with tag %q twice (all: %q)", st.Req, tg, ur.Tags))
+				}
+				seen[tg] = true
+			}
+			for _, tg := range c19wFilterNS(ur.Tags, o.imm()) {
+				if !strings.HasPrefix(tg, "basic:newacc") {
+					return o.rep(kit.V("reserved-tags-at-creation:new-account", "%s created an account with tag %q in a reserved namespace %v (all: %q)", st.Req, tg, c19wList(o.imm()), ur.Tags))
+				}
+			}
+		}
 	case st.Op.K == "raw" && st.Op.B == c19wAccLogin:
 		// the authenticator maintains exactly one tag per account in its namespace: the login on record
 		if st.Login >= 0 && len(st.Op.X) == 1 {
@@ -1307,6 +1361,15 @@ func (o *c19wObs) judgeSearch(w *wWorld, st *wStep, healthy bool) *kit.Viol {
 				if _, dup := found[name]; dup {
 					return kit.V("search-duplicate-result", "%s listed twice in the results of %s", name, st.Req)
 				}
+				isNew := false
+				for _, nu := range o.newAccounts {
+					isNew = isNew || nu.UserId() == name
+				}
+				if isNew {
+					// an account created by a generated {acc user=new}: its tags are judged at creation, it is not part of the search model
+					o.class("search-lists-generated-account(not judged)")
+					continue
+				}
 				found[name] = s.Private
 			}
 		}
@@ -1406,6 +1469,13 @@ func (o *c19wObs) judgeSearch(w *wWorld, st *wStep, healthy bool) *kit.Viol {
 		if !ok {
 			if name == w.users[user].uid.UserId() {
 				return kit.V("search-found-self", "%s: the searcher is listed in the results", desc())
+			}
+			isNew := false
+			for _, nu := range o.newAccounts {
+				isNew = isNew || nu.UserId() == name
+			}
+			if isNew {
+				continue // an account created by a generated {acc user=new}: its tags are judged at creation, it is not part of the search model
 			}
 			return kit.V("search-found-unknown", "%s: result %s is not an account or group topic known to the model", desc(), name)
 		}
